@@ -18,10 +18,13 @@ if sys.hexversion >= 0x03080000:
     InvalidCompressedFileExceptions = (
         gzip.BadGzipFile,
         lzma.LZMAError,
+        # truncated gzip/bz2/lzma stream
+        EOFError,
     )
 else:
     InvalidCompressedFileExceptions = (
         lzma.LZMAError,
+        EOFError,
     )
 
 
